@@ -16,6 +16,7 @@ import Driver.C19
 import Driver.C06
 import Driver.C17
 import Driver.C02
+import Driver.C15
 open AITB
 
 def handleLine (line : String) : String :=
@@ -40,6 +41,7 @@ def handleLine (line : String) : String :=
   | "C06" :: rest => DrvC06.handle rest
   | "C17" :: rest => DrvC17.handle rest
   | "C02" :: rest => DrvC02.handle rest
+  | "C15" :: rest => DrvC15.handle rest
   | _ => "bad-op"
 
 partial def loop (h : IO.FS.Stream) (out : IO.FS.Stream) : IO Unit := do
